@@ -56,8 +56,10 @@ def theorem_status(pid):
     (those whose name starts with the property id); returns (obligations, discharged, axioms, log)"""
     names, discharged, axioms, log = _file_status(pid)
     for extra in propdefs.READINGS.get(pid, []):
+        whole = extra.endswith("*")              # "File*": every theorem of the file supports this property
+        extra = extra.rstrip("*")
         n2, d2, a2, l2 = _file_status(extra)
-        keep = [n for n in n2 if n.startswith(pid + "_")]
+        keep = [n for n in n2 if whole or n.startswith(pid + "_")]
         if not n2:                       # the readings file no longer compiles or lost its theorems
             keep = [f"{pid}_reading ({extra}.v)"]
         names += keep
